@@ -252,6 +252,13 @@ class RealDomain(Domain):
         self.exp_f = z3.Function("exp_real", z3.RealSort(), z3.RealSort())
         self.u = z3.Q(1, 2 ** 53)
 
+    def const(self, f):
+        # +-infinity as order-only symbols (used by the control-code encodings, which only compare values): every other
+        # value lies between them; callers add `NEG_INF <= v <= POS_INF` for their variables (see ctrl.Kit)
+        if isinstance(f, float) and math.isinf(f):
+            return Num(self, z3.Real("NEG_INF!" if f < 0 else "POS_INF!"))
+        return Num(self, None, self.conv(f))
+
     def conv(self, f):
         if isinstance(f, Fraction):
             return f
